@@ -9,6 +9,7 @@ CONSTANTS
   Ops = {"create", "createfault", "delete"}
   Faults = {"DuplicateName", "BadName", "NotFound"}
   Script <- NoScript
+  CopyKeep = {}
 VIEW View
 INVARIANT TypeOK
 INVARIANT NameUnique
